@@ -189,6 +189,10 @@ pub(crate) fn run(seed: u64, n: u64, out: &mut Out) {
 
         let steps = rng.range(3, 9);
         let delayed_world = world % 4 == 1;
+        // a batch whose block hashes were tampered with (substituted, or swapped between two blocks with byte-identical filters) was
+        // accepted earlier in this world: what the index misses from then on is the consequence of the listed C06 finding, whichever
+        // later step brings it to light (in the delayed-download worlds the downloads come steps later)
+        let mut tainted = false;
         let mut held: Vec<(PeerIndex, Sent)> = Vec::new();
         for _step in 0..steps {
             let min_before = net.storage.get_min_filtered_block_number();
@@ -312,6 +316,7 @@ pub(crate) fn run(seed: u64, n: u64, out: &mut Out) {
             let mut problems: Vec<String> = Vec::new();
             let ban = r.bans.iter().filter(|(p, _)| *p == peer).map(|(_, c)| *c).next().unwrap_or(0);
             let min_after = net.storage.get_min_filtered_block_number();
+            if (what == "substituted-block-hash" || what == "swapped" || what == "substituted-by-announced-header") && min_after > min_before { tainted = true; }
             let scripts_after: Vec<(u64, u64)> = net.storage.get_filter_scripts().iter().map(|ss| {
                 let sid = pool.iter().position(|s| s == &ss.script).unwrap() as u64;
                 (sid * 2 + if ss.script_type == ScriptType::Lock { 0 } else { 1 }, ss.block_number)
@@ -359,7 +364,7 @@ pub(crate) fn run(seed: u64, n: u64, out: &mut Out) {
                 held.extend(follow.drain(..));
                 if matched_records(&net).len() >= 2 {
                     let rest = pump_downloads_until(&mut net, &bc, std::mem::take(&mut held), &mut problems, true);
-                    if let Some(p) = index_problem(&net, &bc, &pool, &reg, "first-of-two-records-completed") { problems.push(p); }
+                    if let Some(p) = index_problem(&net, &bc, &pool, &reg, if tainted { "substituted-block-hash" } else { "first-of-two-records-completed" }) { problems.push(p); }
                     pump_downloads(&mut net, &bc, rest, &mut problems);
                 }
             }
@@ -388,7 +393,7 @@ pub(crate) fn run(seed: u64, n: u64, out: &mut Out) {
                     problems.push(format!("[C06-unproven-block-indexed] [C02-unproven-block-indexed] a SendBlock for a matched hash that was never proven (a block of another branch) was processed: script numbers {:?} -> {:?}", before, after));
                 }
             }
-            if let Some(p) = index_problem(&net, &bc, &pool, &reg, what) { problems.push(p); }
+            if let Some(p) = index_problem(&net, &bc, &pool, &reg, if tainted { "substituted-block-hash" } else { what }) { problems.push(p); }
             let skipped = problems.iter().any(|p| p.contains("skip"));
             let oracle = if problems.is_empty() { Ok(()) } else { Err(problems.join(" || ")) };
             out.case(&format!("filters-{}", case_no), &["block-filters", what, if start <= fin_index as u64 * interval { "cached-regime" } else { "latest-regime" }],
